@@ -1,5 +1,29 @@
-import TakVerif.Impl.TPS
-import TakVerif.Spec.Notation
+import TakVerif.Proofs.TPSRoundtrip
+
+/-! C10 — TPS text and positions round-trip without loss.
+
+Models: `Tak.TPS.formatTPS` / `parseTPS` (`ptn/tps.go`, byte level, with the two `parseRow` bounds checks of
+`fixes/C13-tps-*.diff`), `Tak.Pos.fromSquares` (`tak/game.go`).
+
+`AnalyzeTotal` (the model's `analyze()` never runs out of flood fuel) is a hypothesis of the theorems below;
+it is proved without assumptions as `Roads.analyze_ne_none` in the C02 package and is to be discharged with it
+once both packages are merged. -/
 namespace C10
-theorem placeholder : True := trivial
+open Tak Go Notation TPS
+
+/-- **Format then parse.**  For every well-formed position with the default piece counts of its size and a
+ply in `[0, 2^63)` (`Notation.tpsHyp`, a decidable predicate: consistent bitboards inside the board, heights
+and buried-colour words consistent with them, stacks ≤ 64, incremental hash = its definition, reserves =
+totals − pieces on the board), and every Zobrist table `basis`: `FormatTPS` succeeds, `ParseTPS` of its
+output succeeds, and the parsed position is `Equal` to the original, has the same `Hash()`, the same four
+reserve counters, the same side to move and the same move number.  (TPS stores `ply/2 + 1` and the side;
+`ParseTPS` rebuilds `ply = 2·(n−1) + (side−1)`, which is the original ply exactly.) -/
+theorem tps_roundtrip (basis : Array W) (p : Pos) (hA : AnalyzeTotal) (h : tpsHyp basis p = true) :
+    ∃ s p', formatTPS p = .ok s ∧ parseTPS basis s = .ok p' ∧
+      p'.equal p = true ∧ p'.hashOf = p.hashOf ∧
+      p'.whiteStones = p.whiteStones ∧ p'.whiteCaps = p.whiteCaps ∧
+      p'.blackStones = p.blackStones ∧ p'.blackCaps = p.blackCaps ∧
+      p'.toMove = p.toMove ∧ p'.move = p.move :=
+  tps_roundtrip_core basis p hA h
+
 end C10
